@@ -1,9 +1,21 @@
 (* Pinned statements of C06 (generated once by tools/mkpins.py from coq/props/C06.v, then committed). *)
 From DV Require Import Model.Base Model.Parser Model.Header Model.Readers Model.Uncompress Model.Compress
-  Proofs.Hoare Proofs.CompressFrame props.C06.
+  Spec.NameSpec Proofs.Hoare Proofs.CompressFrame Proofs.RenameSpec Proofs.CompressName Proofs.CompressSize props.C06.
 Check (C06_header_kept : forall (p out : bytes),
   compress p = Ok out -> firstn 12 out = firstn 12 p /\ 12 <= length out).
 Print Assumptions C06_header_kept.
 Check (C06_name_emission_appends : forall d out p off out' d' l f,
   copy_compressed_name d out p off = Ok (out', d', l, f) -> exists sfx, out' = out ++ sfx).
 Print Assumptions C06_name_emission_appends.
+Check (C06_name_emission : forall ls A B d out, Forall lab ls -> length (wire_of_labels ls) <= 255 -> sd_wf d ->
+  exists enc d',
+    copy_compressed_name d out (A ++ wire_of_labels ls ++ B) (length A) =
+      Ok (out ++ enc, d', length enc, length A + length (wire_of_labels ls)) /\
+    emission d (length out) ls enc d').
+Print Assumptions C06_name_emission.
+Check (C06_dictionary_comparison : forall a b, Forall lab a -> Forall lab b ->
+  raw_names_eq_ignore_case (wire_of_labels a) (wire_of_labels b) 0 = true -> ci_labels a b).
+Print Assumptions C06_dictionary_comparison.
+Check (C06_succeeds_and_never_grows : forall p v, bytes_ok p -> parse p = Ok v -> uncompress p = Ok p ->
+  exists out, compress p = Ok out /\ length out <= length p).
+Print Assumptions C06_succeeds_and_never_grows.
